@@ -21,7 +21,7 @@ G_MATCH = r'''
 Doc: items+=Item;
 Item: k=Key ':' v=Val ';';
 Key: /[a-z<>&]+/;
-Val: '<' | '>' | '&' | '"q"' | "it's" | '{' | '}' | '|' | 'a\\b' | '?' | Word;
+Val: '<' | '>' | '&' | '"q"' | "it's" | '{' | '}' | '|' | 'a\\b' | '?' | '&&' | '&amp;' | '<b>' | '"' | '&#38;' | Word;
 Word: /\w+(<|>|\{|\}|\||"|&)?/;
 '''
 
@@ -51,13 +51,24 @@ V: s=STRING | n=INT;
 Pair: '(' a=STRING ',' b=STRING ')';
 '''
 
+G_OBJECT = r'''
+Prog: stmts+=Stmt;
+Stmt: Assign | Any | Many;
+Assign: 'set' name=ID '=' (value=Literal | value=Call) ';';
+Any: 'any' thing=OBJECT ';';
+Many: 'many' (items+=Literal | items+=Call)+ ';';
+Literal: v=INT | s=STRING;
+Call: 'call' f=ID ('&' note=Amp)?;
+Amp: /[a-z&<>"]+/;
+'''
+
 G_REPO = r'''
 Model: imports*=Import things*=Thing;
 Import: 'import' importURI=STRING;
 Thing: 'thing' name=ID ('->' ref=[Thing])? ('note' note=STRING)?;
 '''
 
-GRAMMARS = dict(repo=G_REPO, shapes=G_SHAPES, match=G_MATCH, classes=G_CLASSES, unicode=G_UNICODE, plain=G_PLAIN, noname=G_NONAME)
+GRAMMARS = dict(repo=G_REPO, object=G_OBJECT, shapes=G_SHAPES, match=G_MATCH, classes=G_CLASSES, unicode=G_UNICODE, plain=G_PLAIN, noname=G_NONAME)
 
 SPECIALS = ['"', "\\", "{", "}", "|", "<", ">", "\n", "é", "?", " ", "'"]
 FIXED = ['"', "\\q", "{", "}", "|", "<", ">", "a\nb", "é ü", "|{", "}{", "<p>", "x>y", "a b", 'a"b', "{a|b}", "<", "a\\{",
@@ -171,6 +182,20 @@ def model_text(kind, rng, special=True):
                 t += " " + q(S())
             out.append(t)
         return " ".join(out)
+    if kind == "object":
+        def lit():
+            return str(rng.randint(0, 99)) if rng.random() < 0.5 else q(S())
+
+        def call():
+            return f"call {ident(rng)}" + (f" & {rng.choice(['a', 'a&b', '<x>', '&amp', 'q&'])}" if rng.random() < 0.4 else "")
+        out = []
+        for _ in range(rng.randint(1, 4)):
+            r = rng.random()
+            if r < 0.4:
+                out.append(f"set {ident(rng)} = {lit() if rng.random() < 0.5 else call()} ;")
+            else:       # (no `any` statement: textX cannot parse an explicit OBJECT attribute at all)
+                out.append("many " + " ".join(lit() if rng.random() < 0.5 else call() for _ in range(rng.randint(1, 3))) + " ;")
+        return "\n".join(out)
     if kind == "repo":      # one file of a multi-file model; the caller adds the import line
         n = rng.randint(1, 3)
         tag = ident(rng)
@@ -195,17 +220,20 @@ def model_text(kind, rng, special=True):
 
 # ---------------------------------------------------------------- projections of the model side
 def mm_counts(mm):
-    """What a meta-model export must show: a node / declared class per common and abstract class."""
+    """What a meta-model export must show: a node / declared class per common and abstract class
+    (the built-in OBJECT class may be shown as well when an attribute has that type)."""
     from textx.const import RULE_MATCH
     from textx.lang import ALL_TYPE_NAMES
     drawn, match = [], []
     seen = set()
+    has_object = False
     for cls in mm:
         if cls._tx_fqn in seen or cls.__name__ in ALL_TYPE_NAMES:
             continue
         seen.add(cls._tx_fqn)
         (match if cls._tx_type is RULE_MATCH else drawn).append(cls._tx_fqn)
-    return dict(classes=sorted(drawn), match=sorted(match))
+        has_object = has_object or any(a.cls.__name__ == "OBJECT" for a in cls._tx_attrs.values())
+    return dict(classes=sorted(drawn), match=sorted(match), has_object=has_object)
 
 
 def model_objects(model):
